@@ -19,6 +19,7 @@ pub struct HtmlFilterBodyAction {
     visitor: HtmlBodyVisitor,
     current_buffer: Option<Box<BufferLink>>,
     last_buffer: Vec<u8>,
+    raw_tag: String,
     in_error: bool,
 }
 
@@ -52,6 +53,7 @@ impl HtmlFilterBodyAction {
             leave: None,
             last_buffer: Vec::new(),
             current_buffer: None,
+            raw_tag: String::new(),
             in_error: false,
             visitor,
         }
@@ -104,13 +106,16 @@ impl HtmlFilterBodyAction {
         let mut data = self.last_buffer.clone();
         data.extend(input);
 
-        let mut tokenizer = html::Tokenizer::new(data);
+        let mut tokenizer = html::Tokenizer::new_fragment(data, self.raw_tag.clone());
         let mut to_return = "".to_string();
 
         loop {
+            let mut raw_tag = tokenizer.raw_tag().to_string();
             let mut token_type = tokenizer.next()?;
 
-            if token_type == html::TokenType::ErrorToken {
+            // a token which reached the end of the data may not be complete, keep it for the next call
+            if token_type == html::TokenType::ErrorToken || tokenizer.err().is_some() {
+                self.raw_tag = raw_tag;
                 self.last_buffer = tokenizer.raw();
                 self.last_buffer.extend(tokenizer.buffered());
 
@@ -120,9 +125,11 @@ impl HtmlFilterBodyAction {
             let mut token_data = tokenizer.raw_as_string()?;
 
             while token_type == html::TokenType::TextToken && (token_data.contains('<') || token_data.contains("</")) {
+                let next_raw_tag = tokenizer.raw_tag().to_string();
                 token_type = tokenizer.next()?;
 
-                if token_type == html::TokenType::ErrorToken {
+                if token_type == html::TokenType::ErrorToken || tokenizer.err().is_some() {
+                    self.raw_tag = raw_tag;
                     self.last_buffer = token_data.into_bytes();
                     self.last_buffer.extend(tokenizer.raw());
                     self.last_buffer.extend(tokenizer.buffered());
@@ -137,6 +144,7 @@ impl HtmlFilterBodyAction {
                 }
 
                 token_data = tokenizer.raw_as_string()?;
+                raw_tag = next_raw_tag;
             }
 
             match token_type {
